@@ -299,7 +299,11 @@ func (rw *repoWorld) serve(kind string, keys []string) {
 		}
 	}
 	sh := Shape{Size: "s300", Pos: "last", Width: "w1", Ext: "none", Enc: "der"}
-	body := BuildCRL(CRLSpec{Signer: signer, Listed: listed, Avoid: avoid, Number: rw.number}, sh)
+	number := rw.number
+	if kind == "badsig" {
+		number += 100000 // a forged list claims a number far ahead: being rejected, it must leave nothing behind that outdates the next genuine one
+	}
+	body := BuildCRL(CRLSpec{Signer: signer, Listed: listed, Avoid: avoid, Number: number}, sh)
 	switch kind {
 	case "garbage":
 		rw.org.SetBody(pathRepo, []byte("<html>503 service unavailable</html>"))
